@@ -149,6 +149,91 @@ fn locals(n: felt252) -> felt252 {
     a + b + c + d
 }
 "#, vec![("locals", vec![vec![0], vec![1], vec![99]])]),
+        ("signed_and_bounded", r#"
+fn signed(a: felt252, b: felt252) -> felt252 {
+    let x: i128 = match a.try_into() { Option::Some(v) => v, Option::None => -5 };
+    let y: i64 = match b.try_into() { Option::Some(v) => v, Option::None => 7 };
+    let z: i128 = x - y.into();
+    let w: i8 = if z > 100 { 100 } else if z < -100 { -100 } else { z.try_into().unwrap() };
+    let q: i16 = w.into() * 3;
+    let (d, r) = core::traits::DivRem::div_rem(1000_u32, (b.try_into().unwrap_or(3_u32) | 1).try_into().unwrap());
+    q.into() + d.into() + r.into()
+}
+fn wide_mul(a: u64, b: u64) -> u64 { let p: u128 = core::num::traits::WideMul::wide_mul(a, b); (p % 1000000007).try_into().unwrap() }
+fn overflowing(a: u8, b: u8) -> u8 {
+    let (s, o1) = core::num::traits::OverflowingAdd::overflowing_add(a, b);
+    let (m, o2) = core::num::traits::OverflowingMul::overflowing_mul(a, b);
+    let w = core::num::traits::WrappingSub::wrapping_sub(a, b);
+    if o1 { if o2 { s ^ m } else { w } } else { s | w }
+}
+"#, vec![("signed", vec![vec![5, 3], vec![0, 0], vec![1000000, 1]]), ("wide_mul", vec![vec![0, 0], vec![u64::MAX as u128, u64::MAX as u128], vec![12345, 6789]]), ("overflowing", vec![vec![0, 0], vec![200, 100], vec![255, 255]])]),
+        ("structs_and_spans", r#"
+#[derive(Copy, Drop)]
+struct P { x: u32, y: u32 }
+#[derive(Drop)]
+struct Bag { items: Array<P>, total: u64 }
+fn build(n: u32) -> u64 {
+    let mut bag = Bag { items: array![], total: 0 };
+    let mut i = 0_u32;
+    while i != n { bag.items.append(P { x: i, y: i * 2 }); bag.total += (i * 3).into(); i += 1; };
+    let span = bag.items.span();
+    let half = span.slice(0, span.len() / 2);
+    let mut acc = bag.total;
+    for p in half { acc += (*p.x + *p.y).into(); };
+    match span.get(n) { Option::Some(b) => acc + (*b.unbox().x).into(), Option::None => acc }
+}
+fn early(n: u32) -> u32 {
+    let mut i = 0_u32;
+    let r = loop { if i == n { break i * 2; } if i == 17 { break 1000; } i += 1; };
+    if r > 500 { return r - 1; }
+    r + 1
+}
+"#, vec![("build", vec![vec![0], vec![1], vec![9], vec![40]]), ("early", vec![vec![0], vec![5], vec![30]])]),
+        ("many_variants", r#"
+#[derive(Copy, Drop)]
+enum Op { A, B: u8, C: u16, D: u32, E: u64, F: u128, G: felt252, H: (u8, u8), I: (u64, u64, u64), J }
+fn pick(k: u8) -> Op {
+    if k == 0 { Op::A } else if k == 1 { Op::B(1) } else if k == 2 { Op::C(2) } else if k == 3 { Op::D(3) } else if k == 4 { Op::E(4) }
+    else if k == 5 { Op::F(5) } else if k == 6 { Op::G(6) } else if k == 7 { Op::H((7, 7)) } else if k == 8 { Op::I((8, 8, 8)) } else { Op::J }
+}
+fn eval(k: u8) -> felt252 {
+    match pick(k) { Op::A => 0, Op::B(v) => v.into(), Op::C(v) => v.into(), Op::D(v) => v.into(), Op::E(v) => v.into(), Op::F(v) => v.into(), Op::G(v) => v,
+        Op::H((a, b)) => (a + b).into(), Op::I((a, b, c)) => (a + b + c).into(), Op::J => 99 }
+}
+fn eval_snap(k: u8) -> felt252 { let o = pick(k); let s = @o; match s { Op::A => 1, Op::I((a, _, _)) => (*a).into(), Op::J => 2, _ => 3 } }
+"#, vec![("eval", vec![vec![0], vec![4], vec![7], vec![8], vec![9]]), ("eval_snap", vec![vec![0], vec![8], vec![9], vec![3]])]),
+        ("felt_and_div", r#"
+fn inv_sum(n: felt252) -> felt252 {
+    let mut i = 1;
+    let mut acc = 0;
+    while i != n + 1 { acc += core::felt252_div(1, i.try_into().unwrap()); i += 1; };
+    acc
+}
+fn u256_sqrt_sum(a: u128, b: u128) -> u128 {
+    let r: u128 = core::num::traits::Sqrt::sqrt(u256 { low: a, high: b });
+    let s: u64 = core::num::traits::Sqrt::sqrt(a);
+    r + s.into()
+}
+fn byte_rev(a: u128) -> u128 { core::integer::u128_byte_reverse(a) }
+"#, vec![("inv_sum", vec![vec![0], vec![1], vec![12]]), ("u256_sqrt_sum", vec![vec![0, 0], vec![99, 7], vec![u128::MAX, u128::MAX]]), ("byte_rev", vec![vec![0], vec![0x0102030405060708]])]),
+        ("dict_in_struct", r#"
+use core::dict::Felt252Dict;
+#[derive(Destruct)]
+struct Cache { hits: Felt252Dict<u32>, misses: u32 }
+fn touch(ref c: Cache, k: felt252) { let v = c.hits.get(k); if v == 0 { c.misses += 1; } c.hits.insert(k, v + 1); }
+fn run_cache(n: u32) -> u32 {
+    let mut c = Cache { hits: Default::default(), misses: 0 };
+    let mut i = 0_u32;
+    while i != n { touch(ref c, (i % 5).into()); touch(ref c, i.into()); i += 1; };
+    c.misses + c.hits.get(0)
+}
+fn nullable_dict(n: u32) -> u32 {
+    let mut d: Felt252Dict<Nullable<Span<u32>>> = Default::default();
+    let mut i = 0_u32;
+    while i != n { d.insert(i.into(), NullableTrait::new(array![i, i + 1].span())); i += 1; };
+    match core::nullable::match_nullable(d.get(0)) { core::nullable::FromNullableResult::Null => 0, core::nullable::FromNullableResult::NotNull(b) => b.unbox().len() }
+}
+"#, vec![("run_cache", vec![vec![0], vec![1], vec![12], vec![60]]), ("nullable_dict", vec![vec![0], vec![3], vec![25]])]),
         ("circuits", r#"
 use core::circuit::{
     AddInputResultTrait, CircuitElement, CircuitInput, CircuitInputs, CircuitModulus, CircuitOutputsTrait, EvalCircuitTrait, circuit_add, circuit_inverse,
